@@ -124,7 +124,7 @@ theorem block_regKey {ops : List Op} {obj : ObjId} {e x : Op} (he : e ∈ rgaOrd
   · exact regKey_of_insert (mem_rgaFrom he).2.2
   · rw [regKey_of_noninsert (mem_updatesOf.mp hx).2.2.2.1, (mem_updatesOf.mp hx).2.2.2.2]
 
-theorem seg_rankSorted {ops : List Op} (hw : WF ops) (obj : ObjId) : RankSorted ops (seg ops obj) := by
+theorem seg_rankSorted {ops : List Op} (hw : OpsWF ops) (obj : ObjId) : RankSorted ops (seg ops obj) := by
   unfold RankSorted seg
   rw [List.pairwise_append]
   refine ⟨?_, ?_, ?_⟩
@@ -160,7 +160,7 @@ theorem seg_rankSorted {ops : List Op} (hw : WF ops) (obj : ObjId) : RankSorted 
     have := (mem_mapSeg.mp ha).2.2.2
     rw [hka] at this; cases this
 
-theorem canon_rankSorted {ops : List Op} (hw : WF ops) : RankSorted ops (canon ops) :=
+theorem canon_rankSorted {ops : List Op} (hw : OpsWF ops) : RankSorted ops (canon ops) :=
   canon_pairwise (fun obj => seg_rankSorted hw obj) (fun _ _ hne h => absurd h hne)
 
 theorem canon_objSorted (ops : List Op) : ObjSorted (canon ops) := by
@@ -180,7 +180,7 @@ theorem canon_objSorted (ops : List Op) : ObjSorted (canon ops) := by
     · exact (ObjId.lt_asymm hlt h).elim
 
 /-- the register key of a row of a sequence object names an element of the object -/
-theorem canon_seq_regKey {ops : List Op} (hw : WF ops) {x : Op} (hx : x ∈ canon ops)
+theorem canon_seq_regKey {ops : List Op} (hw : OpsWF ops) {x : Op} (hx : x ∈ canon ops)
     (hm : x.key.isMap = false) : ∃ e ∈ rgaOrder ops x.obj, x.regKey = .elem e.id := by
   unfold canon at hx
   obtain ⟨obj, _, hxs⟩ := List.mem_flatMap.mp hx
@@ -192,7 +192,7 @@ theorem canon_seq_regKey {ops : List Op} (hw : WF ops) {x : Op} (hx : x ∈ cano
     rw [ho]; exact ⟨e, he, hk⟩
 
 /-- **in the canonical order the rows of one register are contiguous** -/
-theorem canon_noReturn {ops : List Op} (hw : WF ops) (hperm : (canon ops).Perm (stored ops)) :
+theorem canon_noReturn {ops : List Op} (hw : OpsWF ops) (hperm : (canon ops).Perm (stored ops)) :
     NoReturn (canon ops) := by
   intro A x B z C hl hzo hzk b hb
   have hmemops : ∀ y ∈ canon ops, y ∈ ops := fun y hy => (List.mem_filter.mp (hperm.mem_iff.mp hy)).1
@@ -263,7 +263,7 @@ theorem canon_noReturn {ops : List Op} (hw : WF ops) (hperm : (canon ops).Perm (
     | elem e => rw [hxk] at hxmap; cases hxmap
 
 /-- on a store satisfying the invariant `IndexBuilder`'s `top` column is the set-based one -/
-theorem storeInv_topCol {ops : List Op} {s : Store} (hw : WF ops) (hi : StoreInv ops s) :
+theorem storeInv_topCol {ops : List Op} {s : Store} (hw : OpsWF ops) (hi : StoreInv ops s) :
     topCol s = topAny s := by
   apply topCol_eq_topAny
   rw [hi.order]
